@@ -7,145 +7,11 @@ use tvh::backends::{with_backend, Backend, ViewFn};
 use tvh::conv::{materialize, OutElem};
 use tvh::engine::{fail, main_for, sub, CheckResult, Fail, Obs, Property, Tier};
 use tvh::gen::{backend_strategy, idx, len_strategy, raw_series, series_of, InT, Series};
-use tvh::model_map as mm;
+use tvh::fuzzable::{check_pipeline, collectors, hint_law_bi, hint_law_fwd, PCase, POp};
 
 // NOTE: this file imports the tevec prelude; `Iterator::` methods that the prelude shadows
 // (sum, max, min, any, all, first, last, count) are always called with explicit paths here.
 
-const CAP_EXTRA: usize = 64;
-
-fn bits_of<T: OutElem>(v: &[T]) -> Vec<u64> {
-    v.iter().map(|t| t.bits()).collect()
-}
-
-/// Core oracle for a forward iterator: after every prefix of `npop` front pops the upper size
-/// hint must equal the number of items still obtainable by safe iteration (and the lower bound).
-fn hint_law_fwd<I, B>(name: &str, build: B, max_pops: usize) -> Result<usize, Fail>
-where
-    I: Iterator,
-    B: Fn() -> I,
-{
-    let mut first_hint = 0usize;
-    for p in 0..=max_pops {
-        let mut it = build();
-        let mut popped = 0;
-        for _ in 0..p {
-            if it.next().is_none() {
-                break;
-            }
-            popped += 1;
-        }
-        if popped < p {
-            break; // iterator exhausted before p pops: covered by smaller p
-        }
-        let (lo, hi) = it.size_hint();
-        let h = match hi {
-            Some(h) => h,
-            None => return fail(format!("{}:no-upper-bound", name), format!("{}: size_hint {:?} has no upper bound after {} pops", name, (lo, hi), p)),
-        };
-        let cap = h.saturating_add(CAP_EXTRA);
-        let mut count = 0usize;
-        while count <= cap {
-            if it.next().is_none() {
-                break;
-            }
-            count += 1;
-        }
-        if count != h || lo != h {
-            return fail(
-                format!("{}:hint!=count{}", name, if p == 0 { "" } else { ":after-pops" }),
-                format!("{}: after {} front pops size_hint = ({}, Some({})) but {}{} items follow", name, p, lo, h, if count > cap { "more than " } else { "" }, count),
-            );
-        }
-        if p == 0 {
-            first_hint = h;
-        }
-    }
-    Ok(first_hint)
-}
-
-/// Same for double-ended iterators with a script of front (true) / back (false) pops.
-fn hint_law_bi<I, B>(name: &str, build: B, script: &[bool]) -> Result<usize, Fail>
-where
-    I: Iterator + DoubleEndedIterator,
-    B: Fn() -> I,
-{
-    let mut first_hint = 0usize;
-    for p in 0..=script.len() {
-        let mut it = build();
-        let mut ok = true;
-        for s in &script[..p] {
-            let r = if *s { it.next() } else { it.next_back() };
-            if r.is_none() {
-                ok = false;
-                break;
-            }
-        }
-        if !ok {
-            break;
-        }
-        let (lo, hi) = it.size_hint();
-        let h = match hi {
-            Some(h) => h,
-            None => return fail(format!("{}:no-upper-bound", name), format!("{}: no upper bound after {} pops", name, p)),
-        };
-        let cap = h.saturating_add(CAP_EXTRA);
-        let mut count = 0usize;
-        // drain alternating ends, which also exercises next_back on the remainder
-        let mut front = true;
-        while count <= cap {
-            let r = if front { it.next() } else { it.next_back() };
-            if r.is_none() {
-                break;
-            }
-            front = !front;
-            count += 1;
-        }
-        if count != h || lo != h {
-            return fail(
-                format!("{}:hint!=count{}", name, if p == 0 { "" } else { ":after-pops" }),
-                format!("{}: after pops {:?} size_hint = ({}, Some({})) but {} items follow", name, &script[..p], lo, h, count),
-            );
-        }
-        if p == 0 {
-            first_hint = h;
-        }
-    }
-    Ok(first_hint)
-}
-
-/// Run the trusted collectors (only called after the hint law held at p = 0) and compare with the
-/// safely collected content.
-fn collectors<I, T, B>(name: &str, build: B, expect_len: usize) -> CheckResult
-where
-    I: TrustedLen<Item = T>,
-    T: OutElem + Clone + std::fmt::Debug + IsNone,
-    B: Fn() -> I,
-{
-    let safe: Vec<T> = Iterator::collect(build());
-    if safe.len() != expect_len {
-        return fail(format!("{}:len", name), format!("{}: {} items, expected {}", name, safe.len(), expect_len));
-    }
-    let want = bits_of(&safe);
-    let a: Vec<T> = build().collect_trusted_to_vec();
-    let b: Vec<T> = build().collect_trusted_vec1();
-    let c: std::collections::VecDeque<T> = build().collect_trusted_vec1();
-    let d: Array1<T> = build().collect_trusted_vec1();
-    let e: Vec<T> = build().collect_vec1_with_len(expect_len);
-    let f: TResult<Vec<T>> = build().map(|v| Ok(v)).try_collect_trusted_vec1();
-    let f = match f {
-        Ok(f) => f,
-        Err(e) => return fail(format!("{}:try-collect", name), format!("{}: try_collect_trusted_vec1 failed: {}", name, e)),
-    };
-    let c: Vec<T> = Iterator::collect(c.into_iter());
-    let d: Vec<T> = d.to_vec();
-    for (what, got) in [("collect_trusted_to_vec", &a), ("collect_trusted_vec1<Vec>", &b), ("collect_trusted_vec1<VecDeque>", &c), ("collect_trusted_vec1<Array1>", &d), ("collect_vec1_with_len", &e), ("try_collect_trusted_vec1", &f)] {
-        if bits_of(got) != want {
-            return fail(format!("{}:collector", name), format!("{}: {} returned {:?}, safe collection gives {:?}", name, what, got, safe));
-        }
-    }
-    Ok(())
-}
 
 // ---------------------------------------------------------------------------------------------
 // single adaptors with parameters around the critical sizes
@@ -462,26 +328,6 @@ fn check_winsorize_cut(c: &ACase, obs: &mut Obs) -> CheckResult {
 // ---------------------------------------------------------------------------------------------
 // random pipelines of depth 1..=6
 
-#[derive(Clone, Debug, Serialize, Deserialize)]
-enum POp {
-    VShift(i32, Option<f64>),
-    Shift(i32, f64),
-    VAbs,
-    Abs,
-    Fill(f64),
-    FFill(Option<f64>),
-    Clip(Option<f64>, Option<f64>),
-    FillNeg(f64),
-    ToTrust,
-}
-
-#[derive(Clone, Debug, Serialize, Deserialize)]
-struct PCase {
-    x: Series,
-    ops: Vec<POp>,
-    pops: usize,
-}
-
 fn pop_strategy(len_hint: usize) -> impl Strategy<Value = POp> {
     let l = len_hint as i32;
     prop_oneof![
@@ -510,83 +356,6 @@ fn p_case(tier: Tier) -> impl Strategy<Value = PCase> {
         let len = x.len();
         (Just(x), proptest::collection::vec(pop_strategy(len), 1..=6), 0usize..4).prop_map(|(x, ops, pops)| PCase { x, ops, pops })
     })
-}
-
-type DynIt<'a> = Box<dyn TrustedLen<Item = f64> + 'a>;
-
-fn build_pipeline<'a>(d: &'a Vec<f64>, ops: &'a [POp]) -> DynIt<'a> {
-    let mut it: DynIt<'a> = Box::new(d.titer());
-    for op in ops {
-        it = match op {
-            POp::VShift(n, f) => it.vshift(*n, *f),
-            POp::Shift(n, f) => it.shift(*n, *f),
-            POp::VAbs => Box::new(it.vabs()),
-            POp::Abs => Box::new(MapBasic::abs(it)),
-            POp::Fill(f) => Box::new(it.fill(*f)),
-            POp::FFill(f) => Box::new(it.ffill(*f)),
-            POp::Clip(lo, hi) => it.vclip(lo.unwrap_or(f64::NAN), hi.unwrap_or(f64::NAN)),
-            POp::FillNeg(f) => {
-                let f = *f;
-                Box::new(it.fill_mask(|v: &f64| *v < 0.0, f))
-            },
-            POp::ToTrust => {
-                let n = it.len();
-                Box::new(it.to_trust(n))
-            },
-        };
-    }
-    it
-}
-
-fn model_pipeline(x: &Series, ops: &[POp]) -> Series {
-    let mut s = x.clone();
-    for op in ops {
-        s = match op {
-            POp::VShift(n, f) => mm::shift(&s, *n as i64, *f),
-            POp::Shift(n, f) => mm::shift(&s, *n as i64, Some(*f)),
-            POp::VAbs | POp::Abs => mm::abs(&s),
-            POp::Fill(f) => {
-                let m: Vec<bool> = s.iter().map(|v| v.is_none()).collect();
-                mm::fill_mask(&s, &m, Some(*f))
-            },
-            POp::FFill(f) => {
-                let m: Vec<bool> = s.iter().map(|v| v.is_none()).collect();
-                mm::ffill_mask(&s, &m, *f)
-            },
-            POp::Clip(lo, hi) => mm::clip(&s, *lo, *hi),
-            POp::FillNeg(f) => {
-                let m: Vec<bool> = s.iter().map(|v| v.map(|v| v < 0.0).unwrap_or(false)).collect();
-                mm::fill_mask(&s, &m, Some(*f))
-            },
-            POp::ToTrust => s,
-        };
-    }
-    s
-}
-
-fn check_pipeline(c: &PCase, obs: &mut Obs) -> CheckResult {
-    let d: Vec<f64> = c.x.iter().map(|v| v.unwrap_or(f64::NAN)).collect();
-    let len = d.len();
-    let h = hint_law_fwd("pipeline", || build_pipeline(&d, &c.ops), c.pops)?;
-    if h != len {
-        return fail("pipeline:length-not-preserved", format!("pipeline {:?} announces {} items for {} inputs", c.ops, h, len));
-    }
-    collectors("pipeline", || build_pipeline(&d, &c.ops), len)?;
-    // content against the reference interpreter
-    let got: Vec<f64> = Iterator::collect(build_pipeline(&d, &c.ops));
-    let want = model_pipeline(&c.x, &c.ops);
-    for i in 0..len {
-        let g = if got[i].is_nan() { None } else { Some(got[i]) };
-        if g != want[i] {
-            return fail("pipeline:content", format!("pipeline {:?} item {}: got {:?}, interpreter gives {:?}", c.ops, i, g, want[i]));
-        }
-    }
-    let shifts = c.ops.iter().filter(|o| matches!(o, POp::VShift(..) | POp::Shift(..))).count();
-    obs.set_nontrivial(c.ops.len() >= 3 || c.ops.iter().any(|o| matches!(o, POp::VShift(n, _) | POp::Shift(n, _) if n.unsigned_abs() as usize >= len)));
-    obs.class_if(c.ops.len() >= 3, "depth>=3");
-    obs.class_if(shifts >= 2, "two_shifts");
-    obs.class_if(c.pops > 0, "partial_consumption");
-    Ok(())
 }
 
 // ---------------------------------------------------------------------------------------------
@@ -651,7 +420,9 @@ fn main() {
          Non-trivial = |n| >= len or kth >= len or pipeline depth >= 3 or a script that pops from both ends; distinct = distinct serialised cases",
     )
     .assume("the oracle never trusts the hint: items are counted with plain next() under a cap, and trusted collectors only run after the hint law held before consumption")
-    .assume("partition padding needs a nullable element type (DESIGN 5.7): partitions run on f64");
+    .assume("partition padding needs a nullable element type (DESIGN 5.7): partitions run on f64")
+    .assume("thorough tier: libFuzzer target fz_iter decodes bytes into pipeline programs and runs the same oracle (collectors under ASan)")
+    .raw(|bytes| ("pipeline".to_string(), serde_json::to_value(tvh::fuzzable::decode_pipeline(bytes)).unwrap()));
     p.add(sub("shift", 6000, 200000, a_case, check_shift));
     p.add(sub("vshift", 6000, 200000, a_case, check_vshift));
     p.add(sub("vdiff", 6000, 200000, a_case, |c: &ACase, o: &mut Obs| check_vdiff(c, false, o)));
